@@ -56,6 +56,68 @@ def text_measure(s):
     return [max(clen(w) for w in s.split()), max(clen(l) for l in s.splitlines())]
 
 
+# ---------------------------------------------------------------- total decoding of descriptions
+# The generic shrinker of common.py deletes / halves / zeroes arbitrary sub-trees.  `sanitize` maps
+# ANY tree to a well-formed table description (identity on what `generate` emits) and is applied on
+# both sides (implementation, model, spec checkers), so structurally shrunk candidates -- a column or
+# a row dropped, a text halved -- are valid tables and shrinking proceeds.
+DEFAULT_OPTS = [1, 1, 1, 0, 0, 0, [0, 1, 0, 1], 0, 1, 0, [], []]
+ALLOWED = set(ord(c) for c in " \n") | set(range(ord("A"), ord("Z") + 1)) | set(range(ord("a"), ord("z") + 1)) \
+    | set(ord(c) for c in WIDE_POOL)
+
+
+def _flag(x):
+    return 1 if isinstance(x, int) and x != 0 else 0
+
+
+def _optint(x, lo, hi):
+    if isinstance(x, list) and x and isinstance(x[0], int):
+        return [max(lo, min(hi, x[0]))]
+    return []
+
+
+def _text(x):
+    if not isinstance(x, list):
+        return []
+    return [c if c in ALLOWED else 120 for c in x if isinstance(c, int)]
+
+
+def sanitize(d):
+    d = list(d) if isinstance(d, list) else []
+    d = (d + [[], [], [], [], 20, []])[:6] if len(d) < 6 else d[:6]
+    o = list(d[0]) if isinstance(d[0], list) else []
+    o = o[:12] + DEFAULT_OPTS[len(o[:12]):]
+    box = _optint(d[1], 0, len(BOX_NAMES) - 1)
+    pad = o[6] if isinstance(o[6], list) else []
+    pad = [max(0, min(3, x)) if isinstance(x, int) else 0 for x in pad[:4]]
+    pad = pad + [0] * (4 - len(pad))
+    opts = [1 if box else 0, _flag(o[1]), _flag(o[2]), _flag(o[3]), _flag(o[4]),
+            max(0, min(3, o[5])) if isinstance(o[5], int) else 0, pad, _flag(o[7]), _flag(o[8]), _flag(o[9]),
+            _optint(o[10], 1, 200), _optint(o[11], 1, 200)]
+    cols = []
+    for c in (d[2] if isinstance(d[2], list) else [])[:6]:
+        c = list(c) if isinstance(c, list) else []
+        c = c[:9] + [[], [], [], [], 0, 0, 0, [], []][len(c[:9]):]
+        cols.append([_optint(c[0], 1, 60), _optint(c[1], 1, 60), _optint(c[2], 1, 60), _optint(c[3], 1, 9), _flag(c[4]),
+                     c[5] % 4 if isinstance(c[5], int) else 0, c[6] % 3 if isinstance(c[6], int) else 0,
+                     _text(c[7]), _text(c[8])])
+    if not cols:
+        cols = [[[], [], [], [], 0, 0, 0, [], []]]
+    n = len(cols)
+    rows = []
+    for r in (d[3] if isinstance(d[3], list) else [])[:8]:
+        r = list(r) if isinstance(r, list) else []
+        cells = r[0] if r and isinstance(r[0], list) else []
+        cells = [_text(x) for x in cells[:n]]
+        cells = cells + [[] for _ in range(n - len(cells))]
+        rows.append([cells, _flag(r[1]) if len(r) > 1 else 0])
+    W = max(1, min(250, d[4])) if isinstance(d[4], int) else 20
+    ex = d[5] if isinstance(d[5], list) else []
+    ex = (list(ex) + [[], []])[:2]
+    extras = [[_text(e[0])] if isinstance(e, list) and e and isinstance(e[0], list) and e[0] else [] for e in ex]
+    return [opts, box, cols, rows, W, extras]
+
+
 # ---------------------------------------------------------------- generators
 def rtext(rng, k, kind=None):
     """cell text for row class k"""
@@ -272,6 +334,7 @@ def model_cols(desc):
 
 def model_case(op, arg):
     if op == "table_widths":
+        arg = sanitize(arg)
         return op, [STALE, arg[0], model_cols(arg), arg[4]]
     return op, arg
 
@@ -342,7 +405,7 @@ def impl(op, arg):
         t.add_row("2")
         lines = render_text_lines(console(20), t)
         return 1 if len(lines) == 6 else 0
-    desc = arg
+    desc = sanitize(arg)
     opts, bx, cols, rows, W, extras = desc
     con = console(W)
     t = build(desc, with_annot=False)
@@ -410,28 +473,38 @@ def spec_cases(op, arg, out):
         if len(widths) == len(wrap) and all(w >= 0 for w in widths):
             res.append(("spec.collapse_ok", [widths, wrap, mw, out[1]]))
     if op == "table_render":
-        desc = arg
+        desc = sanitize(arg)
         opts, bx, cols, rows, W, extras = desc
         widths, out_rows, body, annot_ok = out
         n = len(cols)
         target = opts[10][0] if opts[10] else W
         # (1) the assembly model reproduces the implementation's lines from its own cell lines
         res.append(("spec.render_eq", [LEAD_MUL[0], opts, bx, widths, out_rows, body]))
+        # "asked to expand => exactly the width asked for": the guard is Table.expand_dom_b, the very
+        # predicate of theorem C07_table_expand_exact, evaluated by the model driver on this table
+        res.append(("spec.expand_exact_dom", [[STALE, opts, model_cols(desc), W], body]))
         if W < smin(desc) or target < smin(desc):
             return res
         # (2) the property, on the printed table
         res.append(("spec.rect", body))
         if annot_ok != 1:
             res.append(("spec.rect", [[1], [1, 1]]))   # title/caption not on lines of their own
-        capped = any(c[0] or c[2] for c in cols)
-        if (opts[9] or opts[10]) and not capped:
-            res.append(("spec.expand_exact", [target, body]))
         shown = ([0] if opts[2] else []) + [1 + i for i in range(len(rows))] + ([9] if opts[3] else [])
-        classes = []
+        rowsets = []
         for pos, k in enumerate(shown):
             texts = [column_texts(desc, j)[pos] for j in range(n)]
-            classes.append(sorted(set(ord(c) for t in texts for c in t if not c.isspace())))
-        all_fold = all(c[6] == FOLD and not c[4] for c in cols)
+            rowsets.append(set(ord(c) for t in texts for c in t if not c.isspace()))
+        # a character is evidence for a row only if it occurs in that row alone (always so for generated
+        # tables; shrunk ones may share characters)
+        classes = [sorted(c for c in rs if sum(1 for other in rowsets if c in other) == 1) for rs in rowsets]
+        # "every row is met" is demanded under the hypotheses of C07_cell_chars_in_own_column: fold, not
+        # no_wrap, and room for one character of the column's cells (2 cells when a double-width one
+        # occurs) inside the padding -- a ratio column can be squeezed to one cell at any W (notes)
+        def need(j):
+            return 2 if any(c in WIDE for t in column_texts(desc, j) for c in t) else 1
+        all_fold = all(c[6] == FOLD and not c[4] for c in cols) \
+            and all(len(rs) == len(cl) for rs, cl in zip(rowsets, classes)) \
+            and all(widths[j] - padding_width(desc, j) >= need(j) for j in range(n))
         res.append(("spec.rows_ordered", [classes, 1 if all_fold else 0, body]))
         colspec = []
         for j in range(n):
@@ -446,7 +519,7 @@ def spec_cases(op, arg, out):
 def describe(op, arg):
     try:
         if op in ("table_widths", "table_render"):
-            opts, bx, cols, rows, W, extras = arg
+            opts, bx, cols, rows, W, extras = sanitize(arg)
             return (f"Table {len(cols)} cols x {len(rows)} rows, box={BOX_NAMES[bx[0]] if bx else None}, W={W}, "
                     f"expand={opts[9]} width={opts[10]} min_width={opts[11]} leading={opts[5]} padding={opts[6]}")
     except Exception:
